@@ -28,11 +28,11 @@ def build(tier):
     kinds = prog_kinds.KINDS
     pairs = [(kinds[i], kinds[(i + 1) % len(kinds)]) for i in range(len(kinds))] if quick else [(a, b) for a in kinds for b in kinds]
     for (a, b) in pairs:
-        n1, n2, l = (2, 2, 2) if quick else (3, 2, 3)
-        obs.append(vf.CH(f"C01.c pair {a}+{b} n={n1},{n2} L={l}", "c01_pair.py", dict(K1=a, K2=b, N1=n1, N2=n2, L=l, IND="  ", NCP=(n1 + n2) * l),
+        l1, l2 = ((2, 0, 1), (1,)) if quick else ((3, 0, 2), (0, 2))
+        obs.append(vf.CH(f"C01.c pair {a}+{b} line lengths {l1},{l2}", "c01_pair.py", dict(K1=a, K2=b, LENS1=l1, LENS2=l2, IND="  ", NCP=sum(l1) + sum(l2)),
                          timeout=240 if quick else 1200, encodes=ENC_TEXT,
-                         symbolic=f"{n1}+{n2} doc lines of {l} arbitrary code points each (no LF, CR, ']]')",
-                         bound=f"two adjacent documented commands ({a}, {b}); line length exactly {l}"))
+                         symbolic=f"doc lines of lengths {l1} and {l2}: arbitrary code points (no LF, CR, ']]'); 0 = empty line",
+                         bound=f"two adjacent documented commands ({a}, {b}); line lengths {l1} / {l2}"))
     D = 2 if quick else 4
     obs.append(e2obs.ob_validate(D, tier))
     obs.append(e2obs.ob_canon('C01', D, module=False, label='C01.d'))
